@@ -49,11 +49,11 @@ ApiStep(s, e) ==
     CASE e.api = "Connect" -> [s EXCEPT !.cst = "active"]
       [] e.api = "Register" -> [s EXCEPT !.regs = @ \cup {e.topic}]
       [] e.api = "Subscribe" ->
-            [s EXCEPT !.subs = {x \in @ : x.f # e.topic} \cup {[f |-> e.topic, tl |-> e.tl, h |-> e.h]},
+            [s EXCEPT !.subs = {x \in @ : x.f # e.topic} \cup {[f |-> e.topic, tl |-> e.tl, h |-> e.h, qos |-> e.qos]},
                       !.regs = IF HasWild(e.tl) \/ e.short THEN @ ELSE @ \cup {e.topic}]
       [] e.api = "SubscribePredefined" ->
             LET pn == PredefName(s.cfg, s.cfg.cid, e.tid) IN
-            [s EXCEPT !.subs = {x \in @ : x.f # pn.n} \cup {[f |-> pn.n, tl |-> pn.tl, h |-> e.h]}]
+            [s EXCEPT !.subs = {x \in @ : x.f # pn.n} \cup {[f |-> pn.n, tl |-> pn.tl, h |-> e.h, qos |-> e.qos]}]
       [] e.api = "Unsubscribe" -> [s EXCEPT !.subs = {x \in @ : x.f # e.topic}]
       [] e.api = "UnsubscribePredefined" ->
             [s EXCEPT !.subs = {x \in @ : x.f # PredefName(s.cfg, s.cfg.cid, e.tid).n}]
